@@ -11,12 +11,19 @@ let canon_text v = match compact_print (canon v) with Some t -> tok_of_cps t | N
 
 
 (* canonicalize, edit the root object (list semantics of Spec/Multimap), canonicalize again *)
+(* a number spelling, or `o<number spelling>`: the unsorted object {"z": n, "a": [n]} *)
+let edit_val (n : str) : value =
+  if Stdlib.String.length n > 0 && n.[0] = 'o' then
+    let x = VNum (cps_of_tok (Stdlib.String.sub n 1 (Stdlib.String.length n - 1))) in
+    VObj [(s2l_ascii "z", x); (s2l_ascii "a", VArr [x])]
+  else VNum (cps_of_tok n)
+
 let apply_edit (es : (n list * value) list) (op : str) : (n list * value) list =
   match Stdlib.String.split_on_char ':' op with
-  | ["pf"; k; n] -> fst (m_push_front es (cps_of_tok k, VNum (cps_of_tok n)))
-  | ["pb"; k; n] -> fst (m_push es (cps_of_tok k, VNum (cps_of_tok n)))
-  | ["in"; k; n] -> fst (m_insert es (cps_of_tok k) (VNum (cps_of_tok n)))
-  | ["if"; k; n] -> fst (m_insert_front es (cps_of_tok k) (VNum (cps_of_tok n)))
+  | ["pf"; k; n] -> fst (m_push_front es (cps_of_tok k, edit_val n))
+  | ["pb"; k; n] -> fst (m_push es (cps_of_tok k, edit_val n))
+  | ["in"; k; n] -> fst (m_insert es (cps_of_tok k) (edit_val n))
+  | ["if"; k; n] -> fst (m_insert_front es (cps_of_tok k) (edit_val n))
   | ["rm"; k] -> fst (m_remove es (cps_of_tok k))
   | ["ra"; i] -> fst (m_remove_at es (nat_of_int (int_of_string i)))
   | ["st"] -> (match sort { entries = es; buckets = [] } with
